@@ -104,10 +104,12 @@ pub fn c04(out: &mut Out, ex: &mut Exec, seed: u64, thorough: bool) {
 
 pub fn c05(out: &mut Out, ex: &mut Exec, seed: u64, thorough: bool) {
     let mut rng = Rng::new(seed);
-    let vals: Vec<i64> = if thorough { (-70000..=140000).collect() } else {
-        let mut v: Vec<i64> = (-70000..=140000).step_by(997).collect();
-        for b in [-65536i64, -32769, -32768, -32767, -1025, -1024, -257, -256, -33, -32, -17, -16, -1, 0, 1, 7, 8, 15, 16, 31, 32, 255, 256, 1023, 1024, 32767, 32768, 65535, 65536, 131071] { for d in -3..=3 { v.push(b + d); } }
-        v };
+    let boundaries: Vec<i64> = { let mut v = vec![]; for b in [-65536i64, -32769, -32768, -32767, -1025, -1024, -257, -256, -33, -32, -17, -16, -1, 0, 1, 7, 8, 15, 16, 31, 32, 255, 256, 1023, 1024, 32767, 32768, 65535, 65536, 131071] { for d in -3..=3 { v.push(b + d); } } v };
+    let vals: Vec<i64> = if thorough { (-70000..=140000).collect() } else { let mut v: Vec<i64> = (-70000..=140000).step_by(997).collect(); v.extend(boundaries.iter().copied()); v };
+    // operand contexts: every value in the quick tier; in the thorough tier every value within +-64 of a power-of-two bound
+    // (field limits), every value in [-1100, 2100], and every 97th value elsewhere (the bare-token check still sees every value)
+    let near_bound = |v: i64| -> bool { let a = v.abs(); (0..=17).any(|k| (a - (1i64 << k)).abs() <= 64) };
+    let ctx_for = |v: i64| -> bool { !thorough || (-1100..=2100).contains(&v) || near_bound(v) || v.rem_euclid(97) == 0 };
     let fits_s = |v: i64, bits: u32| -(1i64 << (bits - 1)) <= v && v < (1i64 << (bits - 1));
     for &v in &vals {
         // notations: unsigned decimal/hash/hex forms for v >= 0, signed forms for v <= 0 (incl. -0)
@@ -123,6 +125,7 @@ pub fn c05(out: &mut Out, ex: &mut Exec, seed: u64, thorough: bool) {
             // operand of every field
             let contexts: [(&str, u32, bool, bool); 9] = [("ADD R0, R0, ", 5, true, false), ("LDR R0, R0, ", 6, true, false), ("BRnzp ", 9, true, false), ("JSR ", 11, true, false),
                 ("TRAP ", 8, false, false), (".orig ", 16, false, false), (".blkw ", 16, false, true), (".fill ", 16, false, false), ("LD R7, ", 9, true, false)];
+            if !ctx_for(v) { continue; }
             for (pre, bits, fsigned, nonzero) in contexts {
                 let text = format!("{pre}{t}");
                 let l = format!("parse {}", hexs(text.as_bytes())); let r = ex.line(&l); out.op(&l, &r); out.evaluations += 1;
@@ -149,7 +152,7 @@ pub fn c05(out: &mut Out, ex: &mut Exec, seed: u64, thorough: bool) {
         if !r.starts_with('E') { out.fail(out.lines, format!("huge literal `{t}` accepted: {r}"), l.clone()); } } }
     out.exhaustive = thorough;
     out.nontrivial = out.evaluations;
-    out.rule = format!("{} integers in [-70000,140000] ({}), each in every notation (n, #n, xH, XH, leading zeros; -n, #-n, x-H) as a bare token and as the operand of imm5, offset6, PCoffset9, PCoffset11, trapvect8, .orig, .blkw, .fill; R/r + every number 0..299 with leading zeros; 40-50 digit literals; oracle: acceptance and value computed arithmetically", vals.len(), if thorough { "every integer" } else { "stride 997 + all boundaries +-3" });
+    out.rule = format!("{} integers in [-70000,140000] ({}), each in every notation (n, #n, xH, XH, leading zeros; -n, #-n, x-H) as a bare token and (thorough tier: values within 64 of a power of two, in [-1100,2100], and every 97th other value; quick tier: all listed values) as the operand of imm5, offset6, PCoffset9, PCoffset11, trapvect8, .orig, .blkw, .fill; R/r + every number 0..299 with leading zeros; 40-50 digit literals; oracle: acceptance and value computed arithmetically", vals.len(), if thorough { "every integer" } else { "stride 997 + all boundaries +-3" });
 }
 
 pub fn c36(out: &mut Out, ex: &mut Exec, seed: u64, thorough: bool) {
